@@ -36,6 +36,8 @@ pub struct MNode {
     pub engine_id: usize,
     pub cutoff: CutoffSpec,
     pub cutoff_set: bool,
+    /// some cutoff this node has had could suppress unequal values
+    pub had_noneq_cutoff: bool,
     pub value: Option<MV>,
     pub last_run: Option<u32>,
     pub last_changed: Option<u32>,
